@@ -209,7 +209,7 @@ def argv_token__reach(tok: str, first: bool) -> bool:
     pre: dom_token(tok)
     post: not _
     """
-    return _token_ok(tok, first) and len(tok) == N and tok[:2] == '-o'
+    return len(tok) == N and tok[:2] == '-o'
 
 
 def argv_token__reach_dash(tok: str, first: bool) -> bool:
@@ -217,7 +217,7 @@ def argv_token__reach_dash(tok: str, first: bool) -> bool:
     pre: dom_token(tok)
     post: not _
     """
-    return _token_ok(tok, first) and tok[:2] == '--' and len(tok) > 2
+    return tok[:2] == '--' and len(tok) > 2
 
 
 def argv_token__in_Okey(tok: str, first: bool) -> bool:
@@ -306,7 +306,7 @@ def argv_value__reach(k: int, val: str) -> bool:
     pre: dom_value(k, val)
     post: not _
     """
-    return _classify(_value_argv(k, val), 0) == 'ok' and len(val) == N
+    return len(val) == N
 
 
 def argv_value__in_split(k: int, val: str) -> bool:
@@ -439,7 +439,7 @@ def argv_order__reach(i: int, j: int, filepos: int) -> bool:
     pre: i < j and dom_order(i, j, filepos)
     post: not _
     """
-    return _order_ok(i, j, filepos) and filepos == 1
+    return filepos == 1
 
 
 def argv_order__in_output(i: int, j: int, filepos: int) -> bool:
@@ -463,7 +463,7 @@ def argv_order__excl__reach(i: int, j: int, filepos: int) -> bool:
     pre: i < j and dom_order(i, j, filepos) and not has_output_opt(i, j)
     post: not _
     """
-    return _order_ok(i, j, filepos) and filepos == 1
+    return filepos == 1
 
 
 def argv_order__explain(i, j, filepos):
@@ -492,7 +492,7 @@ def argv_filepos__reach(i: int, j: int) -> bool:
     pre: dom_order(i, j, 0)
     post: not _
     """
-    return _filepos_ok(i, j) and OPTS[i][0] == 'O'
+    return OPTS[i][0] == 'O'
 
 
 def argv_filepos__in_output(i: int, j: int) -> bool:
@@ -516,7 +516,7 @@ def argv_filepos__excl__reach(i: int, j: int) -> bool:
     pre: dom_order(i, j, 0) and not has_output_opt(i, j)
     post: not _
     """
-    return _filepos_ok(i, j)
+    return True
 
 
 def argv_filepos__explain(i, j):
